@@ -276,9 +276,11 @@ class Interp:
                            '%s = %s' % (txt(self.canon.rename(self.subst(targets[0], env))), txt(self._c(value, env))))
             return None
         if isinstance(s, ast.AugAssign):
-            effects.append('%s %s= %s' % (txt(self._c(s.target, env)), type(s.op).__name__, txt(self._c(s.value, env))))
             if isinstance(s.target, ast.Name):
-                env.pop(s.target.id, None)
+                cur = env.get(s.target.id, ast.Name(id=s.target.id, ctx=ast.Load()))
+                env[s.target.id] = ast.BinOp(left=copy.deepcopy(cur), op=s.op, right=self.subst(s.value, env))
+                return None
+            effects.append('%s %s= %s' % (txt(self._c(s.target, env)), type(s.op).__name__, txt(self._c(s.value, env))))
             return None
         if isinstance(s, ast.If):
             if self.truth(self._c(s.test, env), val):
@@ -317,11 +319,17 @@ class Interp:
     def _for(self, s, env, effects, val):
         # shape: for x in IT: if cond(x): return CONST   (optionally nothing else)
         body = [b for b in s.body if not (isinstance(b, ast.Expr) and isinstance(b.value, ast.Constant))]
+        lead = []
+        while len(body) > 1 and isinstance(body[0], ast.Assign) and len(body[0].targets) == 1 \
+                and isinstance(body[0].targets[0], ast.Name):
+            lead.append(body.pop(0))
         if len(body) == 1 and isinstance(body[0], ast.If) and not body[0].orelse and not s.orelse \
                 and len(body[0].body) == 1 and isinstance(body[0].body[0], ast.Return) \
                 and isinstance(s.target, ast.Name):
             env2 = dict(env)
             env2[s.target.id] = ast.Name(id='_x', ctx=ast.Load())
+            for a in lead:
+                env2[a.targets[0].id] = self.subst(a.value, env2)
             cond = self._c(body[0].test, env2)
             it = self._c(s.iter, env)
             r = self.need(('exists', txt(it), txt(cond)), (True, False), val)
